@@ -1,0 +1,39 @@
+//go:build verif
+
+package file
+
+import (
+	"encoding/pem"
+
+	"golang.org/x/crypto/ssh"
+)
+
+// Verification hooks for the multi-entry container parsers (see /verif, property C06).
+// Not compiled without the "verif" build tag.
+
+// VerifSSHAuthLineAttrs: what ssh.ParseAuthorizedKey makes of one chunk of an
+// authorized_keys file, rendered with the attribute builder the parser uses.
+func VerifSSHAuthLineAttrs(l []byte) ([]Attribute, error) {
+	pub, comment, _, _, err := ssh.ParseAuthorizedKey(l)
+	if err != nil {
+		return nil, err
+	}
+	return sshPublicKeyAttributes(pub, comment), nil
+}
+
+// VerifSSHKnownHostsLineAttrs: the same for one chunk of a known_hosts file.
+func VerifSSHKnownHostsLineAttrs(l []byte) ([]Attribute, error) {
+	_, hosts, pub, comment, _, err := ssh.ParseKnownHosts(l)
+	if err != nil {
+		return nil, err
+	}
+	return sshKnownHostsKeyAttributes(hosts, pub, comment), nil
+}
+
+// VerifParsePEMBlock describes one decoded PEM block.
+func VerifParsePEMBlock(typ string, b []byte) Info {
+	return parsePEMBlock(&pem.Block{Type: typ, Headers: map[string]string{}, Bytes: b})
+}
+
+// VerifParseCertificate describes one DER certificate.
+func VerifParseCertificate(der []byte) (Info, error) { return parseCertificate(der) }
